@@ -149,6 +149,33 @@ def lake_build(targets=()):
     return r.returncode == 0, r.stdout, time.time() - t0
 
 
+def project_deps(module):
+    """transitive imports of `module` inside this lake project (MtblModel / MtblProofs / MtblProps)"""
+    seen, todo = [], [module]
+    while todo:
+        m = todo.pop()
+        if m in seen:
+            continue
+        path = os.path.join(LEAN, *m.split(".")) + ".lean"
+        if not os.path.exists(path):
+            continue
+        seen.append(m)
+        for l in open(path):
+            mm = re.match(r"^import (Mtbl\S+)", l)
+            if mm:
+                todo.append(mm.group(1))
+    return seen
+
+
+def leanchecker(modules):
+    """re-check compiled modules with the toolchain's independent checker; returns list of (module, ok, tail)"""
+    def one(m):
+        r = sh(["lake", "env", "leanchecker", m], cwd=LEAN)
+        return (m, r.returncode == 0, r.stdout.strip()[-300:])
+    with concurrent.futures.ThreadPoolExecutor(8) as ex:
+        return list(ex.map(one, modules))
+
+
 FORBIDDEN = re.compile(r"\b(sorry|admit|native_decide|bv_decide|implemented_by|unsafe)\b|^axiom |maxHeartbeats 0", re.M)
 
 def strip_comments(src):
